@@ -414,10 +414,13 @@ def run_trace(item):
     obs = _call_ions([(b, z) for b, z in final], [], form)
     if obs["raised"]:
         return None, obs
-    twice = int(round(Fraction(obs["value"]) * 2 * 10 ** 18))
-    if twice < 0:
-        return None, obs
-    res = {"k": "result", "twice": physq.int_to_limbs(twice), "warned": obs["warned"], "form": _form_name(form),
+    # TOTAL encoding: whatever the code returned travels to TLC; nan / inf / negative / non-numbers
+    # get ok=False (an observation that equals no expectation -> verdict reject, clause unencodable-value)
+    ok, twice = physq.quantise(obs["value"], 18, bound=None)
+    twice *= 2
+    if ok and twice < 0:
+        ok, twice = False, 0
+    res = {"k": "result", "ok": ok, "twice": physq.int_to_limbs(twice), "warned": obs["warned"], "form": _form_name(form),
            "final": [{"b": physq.int_to_limbs(b), "z": z} for b, z in final]}
     return evs + [res], obs
 
@@ -432,7 +435,8 @@ SLICES_T = [("Electrolytes_MC", "ions_q", ION_ACTIONS, 2000),
             ("Electrolytes_MC", "ions4_t", [], 2000),
             ("Electrolytes_MCT", "dh_t", ["GenChooseDH"], 5000)]
 DH_CLASSES = {"lim-q", "lim-irr", "ext-q", "ext-irr", "dav-q", "dav-irr", "A-irr", "B-irr", "lap-irr", "eap-irr",
-              "dap-irr", "eap-irr-samez", "eap-irr-neutral", "lap-irr-samez", "dap-irr-neutral"}
+              "dap-irr", "eap-irr-samez", "eap-irr-neutral", "lap-irr-samez", "dap-irr-neutral", "dap-irr-c", "eap-irr-c",
+              "dap-irr-samez-c", "eap-irr-neutral-c"}
 
 
 def _nontrivial(case):
